@@ -1,8 +1,19 @@
-"""Apply every confirmed seed to /repo, run the check of its property, undo the patch; report which checks catch it.
-usage: python3 tools/run_seeds.py [seed ids...]   (writes seeded/RESULTS.json)"""
-import json, os, subprocess, sys, time
+"""Apply every confirmed seed, run the check of its property, undo the patch; report which checks catch it.
+
+By default the patches are applied to a scratch git worktree of /repo's HEAD (HL7APY_REPO points the checks at it),
+so that /repo stays untouched while other work goes on; `--in-repo` applies them to /repo itself
+(git -C /repo apply ...; checks; git -C /repo checkout -- .) as the brief describes.
+
+usage: python3 tools/run_seeds.py [--in-repo] [--props=C01,C02] [seed ids...]   (updates seeded/RESULTS.json)"""
+import json
+import os
+import subprocess
+import sys
+import time
 
 SEEDED = '/verif/seeded'
+IN_REPO = '--in-repo' in sys.argv
+REPO = '/repo' if IN_REPO else '/tmp/seedrun_repo_%d' % os.getpid()
 
 
 def sh(cmd, cwd=None, timeout=3600):
@@ -17,41 +28,54 @@ def main():
     rp = os.path.join(SEEDED, 'RESULTS.json')
     if os.path.exists(rp):
         results = json.load(open(rp))
-    rc, out = sh('git -C /repo status --porcelain')
-    if out.strip():
-        print('refusing: /repo has local changes\n' + out)
-        sys.exit(2)
-    for sid in sorted(os.listdir(SEEDED)):
-        d = os.path.join(SEEDED, sid)
-        if not os.path.isdir(d) or (args and sid not in args):
-            continue
-        meta = json.load(open(os.path.join(d, 'meta.json')))
-        pid = meta['property']
-        props = extra_props[0].split(',') if extra_props else [pid]
-        rc, out = sh('git -C /repo apply %s/patch.diff' % d)
+    if IN_REPO:
+        rc, out = sh('git -C /repo status --porcelain')
+        if out.strip():
+            print('refusing: /repo has local changes\n' + out)
+            sys.exit(2)
+    else:
+        rc, out = sh('git -C /repo worktree add -q --detach %s HEAD' % REPO)
         if rc:
-            rc, out = sh('git -C /repo apply -3 %s/patch.diff' % d)
-        if rc:
-            sh('git -C /repo checkout -- . ; git -C /repo reset -q')
-            results[sid] = {'applies': False, 'note': out[-300:]}
-            print(sid, 'DOES NOT APPLY on the current tree')
-            continue
-        try:
-            row = {'applies': True, 'checks': {}}
-            for p in props:
-                t0 = time.time()
-                rc, out = sh('cd /verif && PYTHONPATH=/repo python3-vt check.py --property %s' % p)
-                lines = [l for l in out.split('\n') if l.startswith('VIOLATION') or l.startswith('UNDECIDED')]
-                row['checks'][p] = {'exit': rc, 'violations': [l[:300] for l in lines if l.startswith('VIOLATION')][:6],
-                                    'undecided': len([l for l in lines if l.startswith('UNDECIDED')]),
-                                    'wall_s': round(time.time() - t0, 1)}
-                print(sid, p, 'exit', rc, '|', (row['checks'][p]['violations'] or ['-'])[0][:200])
-            rc, out = sh('cd /repo && /venv/bin/python %s/demo.py' % d, timeout=900)
-            row['demo_rc_on_patched_current_tree'] = rc
-            results[sid] = row
-        finally:
-            sh('git -C /repo checkout -- . ; git -C /repo reset -q')
-        json.dump(results, open(rp, 'w'), indent=1)
+            print(out)
+            sys.exit(2)
+    try:
+        for sid in sorted(os.listdir(SEEDED)):
+            d = os.path.join(SEEDED, sid)
+            if not os.path.isdir(d) or (args and sid not in args):
+                continue
+            meta = json.load(open(os.path.join(d, 'meta.json')))
+            pid = meta['property']
+            props = extra_props[0].split(',') if extra_props else [pid]
+            pf = 'patch_current.diff' if os.path.exists(os.path.join(d, 'patch_current.diff')) else 'patch.diff'
+            rc, out = sh('git -C %s apply %s/%s' % (REPO, d, pf))
+            if rc:
+                sh('git -C %s reset -q --hard HEAD' % REPO)
+                results[sid] = {'applies': False, 'note': out[-300:]}
+                print(sid, 'DOES NOT APPLY on the current tree')
+                continue
+            try:
+                row = results.get(sid, {}) if results.get(sid, {}).get('applies') else {}
+                row.setdefault('checks', {})
+                row['applies'] = True
+                for p in props:
+                    t0 = time.time()
+                    rc, out = sh('cd /verif && HL7APY_REPO=%s PYTHONPATH=%s python3-vt check.py --property %s' % (REPO, REPO, p))
+                    lines = [l for l in out.split('\n') if l.startswith('VIOLATION') or l.startswith('UNDECIDED')]
+                    row['checks'][p] = {'exit': rc, 'violations': [l[:300] for l in lines if l.startswith('VIOLATION')][:6],
+                                        'undecided': len([l for l in lines if l.startswith('UNDECIDED')]),
+                                        'wall_s': round(time.time() - t0, 1)}
+                    print(sid, p, 'exit', rc, '|', (row['checks'][p]['violations'] or ['-'])[0][:220])
+                    sys.stdout.flush()
+                rc, out = sh('cd %s && PYTHONPATH=%s /venv/bin/python %s/demo.py' % (REPO, REPO, d), timeout=900)
+                row['demo_rc_on_patched_current_tree'] = rc
+                results[sid] = row
+            finally:
+                sh('git -C %s reset -q --hard HEAD' % REPO)
+            json.dump(results, open(rp, 'w'), indent=1)
+    finally:
+        if not IN_REPO:
+            sh('git -C /repo worktree remove --force %s' % REPO)
+            sh('rm -rf %s' % REPO)
     rc, out = sh('git -C /repo status --porcelain')
     print('repo clean:', not out.strip())
 
